@@ -8,7 +8,7 @@ from sa.kern import eval_kernel
 from sa.loopsum import (LoopSummariser, kvar, length_of, r_cell, r_sum,
                         rename_bound)
 from sa.report import Ctx
-from sa.srcmodel import ClassInfo, FuncInfo, func_body
+from sa.srcmodel import ClassInfo, FuncInfo, func_body, inline_locals
 from sa.symterm import Poly, Unsupported, show
 
 OBJ = "moptipyapps.qap.objective"
@@ -92,14 +92,16 @@ def _kernel(ctx: Ctx) -> None:
     ok = False
     detail = "evaluate does not return _evaluate(...)"
     node: ast.AST = evm.node
-    if len(rets) == 1 and isinstance(rets[0].value, ast.Call):
-        c = rets[0].value
+    rv = inline_locals(evm.node, rets[0].value) if len(rets) == 1 and \
+        rets[0].value is not None else None
+    if isinstance(rv, ast.Call):
+        c = rv
         node = c
         if repo.resolve_expr(evm.module, c.func) is k and \
                 len(c.args) == 3 and not c.keywords:
             binding = {}
-            for p, a in zip(k.params, c.args):
-                binding[p] = ast.unparse(a)
+            for p, a in zip(("x", "distances", "flows"), c.args):
+                binding[p] = ast.unparse(inline_locals(evm.node, a))
             ok = binding.get("x") == evm.params[1] and \
                 binding.get("distances") == "self.instance.distances" and \
                 binding.get("flows") == "self.instance.flows"
@@ -318,16 +320,24 @@ def _bounds(ctx: Ctx) -> None:
                         v.order = "clobbered"
         return kind, desc
 
+    scalars: dict[str, tuple[str, str] | None] = {}
     for s in func_body(tb):
         if isinstance(s, (ast.Assign, ast.AnnAssign)) and getattr(
                 s, "value", None) is not None:
             tgt = s.targets[0] if isinstance(s, ast.Assign) else s.target
             if isinstance(tgt, ast.Name):
                 v = val(s.value)
+                scalars.pop(tgt.id, None)
                 if v is not None:
                     env[tgt.id] = v      # alias (same storage) or fresh
                 else:
                     env.pop(tgt.id, None)
+                    if any(isinstance(c_, ast.Call) and isinstance(
+                            c_.func, ast.Attribute) and c_.func.attr in (
+                            "sum", "dot") for c_ in ast.walk(s.value)):
+                        # a bound computed into a local: evaluated here, in
+                        # statement order (in-place products clobber)
+                        scalars[tgt.id] = product(s.value)
             elif isinstance(tgt, ast.Subscript) and isinstance(
                     tgt.value, ast.Name) and isinstance(
                     tgt.slice, ast.Slice) and tgt.slice.lower is None \
@@ -355,7 +365,10 @@ def _bounds(ctx: Ctx) -> None:
         elif isinstance(s, ast.Return):
             if isinstance(s.value, ast.Tuple) and len(s.value.elts) == 2:
                 for e in s.value.elts:
-                    results.append(product(e))
+                    if isinstance(e, ast.Name) and e.id in scalars:
+                        results.append(scalars[e.id])
+                    else:
+                        results.append(product(e))
             else:
                 problems.append((s, "does not return (lb, ub)"))
     ok = not problems and len(results) == 2 and results[0] is not None \
